@@ -239,7 +239,13 @@ def project(svg, scale=8.0, want_style=False, want_raw=False):
     try:
         p.Parse(svg, True)
     except xml.parsers.expat.ExpatError as ex:
-        return {"wf": 0, "error": str(ex)[:200], "elems": [], "w": 0, "h": 0}
+        # every field a trace predicate may look at is present (empty), so that an ill-formed document makes predicates
+        # false instead of making their evaluation fail
+        return {"wf": 0, "error": str(ex)[:200], "w": 0, "h": 0, "rootcls": [], "ns": 0, "nroot": 0, "elems": [],
+                "nstyle": 0, "ndefs": 0, "nbackdrop": 0, "foreign": [], "attrs_foreign": [], "comments": 0, "pis": 0,
+                "doctype": 0, "cdata": 0, "entities": 0, "entityrefs": 0, "stray_text": 0, "order": [], "style": [],
+                "stylelen": 0, "badnum": 0, "inexact": 0, "overflow": 0, "whnum": 0, "backdrop": [], "ws_between": 0,
+                "clstok": [], "namestok": []}
     # literal entity references other than the five predefined ones and numeric ones
     doc["entityrefs"] = len([m for m in re.findall(r"&([^;\s]{1,32});", svg)
                              if m not in ("lt", "gt", "amp", "apos", "quot") and not m.startswith("#")])
